@@ -92,6 +92,14 @@ def opsTl : List (String × Handler) := [
         | none => "err"
       | _, _ => "bad-op"
     | _ => "bad-op"),
+  -- C09: the bytes a generated client method hands to its connection (no transport envelope)
+  ("tlc.req", fun
+    | [sh, f, v] => match schemaArg sh, TlVal.parse v with
+      | some S, some (.tuple ps) => match encodeRequest S f ps with
+        | some req => s!"ok {hexOut req}"
+        | none => "err"
+      | _, _ => "bad-op"
+    | _ => "bad-op"),
   -- a client call answered with the given bytes
   ("tl.ans", fun
     | [sh, f, h] => match schemaArg sh, hexArg h with
